@@ -329,11 +329,39 @@ func argTextD(v ssa.Value, d int, seen map[ssa.Value]bool) string {
 		if seen[x] {
 			return "↺"
 		}
-		seen[x] = true
-		defer delete(seen, x)
+		// the set of values that reach x through phis only: how phis nest is decided by how blocks are
+		// fused (an early `continue` instead of an if around the rest of a loop body adds a level)
 		set := map[string]bool{}
-		for _, e := range x.Edges {
+		web := map[*ssa.Phi]bool{}
+		var leaves []ssa.Value
+		var walk func(p *ssa.Phi)
+		walk = func(p *ssa.Phi) {
+			web[p] = true
+			for _, e := range p.Edges {
+				if q, isPhi := e.(*ssa.Phi); isPhi {
+					if web[q] {
+						continue // the value of the previous iteration: adds nothing to the set
+					}
+					if seen[q] {
+						set["↺"] = true
+						continue
+					}
+					walk(q)
+					continue
+				}
+				leaves = append(leaves, e)
+			}
+		}
+		walk(x)
+		// every phi of the web is "this value" while the inputs are rendered, whatever the order of the edges
+		for p := range web {
+			seen[p] = true
+		}
+		for _, e := range leaves {
 			set[argTextD(e, d+1, seen)] = true
+		}
+		for p := range web {
+			delete(seen, p)
 		}
 		return "phi{" + strings.Join(sortedKeys(set), " | ") + "}"
 	case *ssa.Convert:
